@@ -1421,6 +1421,18 @@ class Emitter:
             if t.ptr and not t.is_ref:
                 return "((%s)(%s))" % (t.text(), self.expr(inner))
             return "(*(%s *)&(%s))" % (t.base, self.expr(inner))
+        if brec is not None and it is not None:
+            # a base class with data members is laid out as the member base_<Base> of the derived record (need_struct)
+            drec = self.find_record(lconst(strip_ns((inner["type"].get("desugaredQualType") or inner["type"]["qualType"]).rstrip("*& "))))
+            if drec is not None and any(self.find_record(strip_ns(b["type"].get("desugaredQualType") or b["type"]["qualType"])) is brec for b in drec.get("bases", [])):
+                self.need_struct(drec)
+                self.report["derived-to-base conversions turned into access to the embedded base member"] += 1
+                member = "base_%s" % t.base
+                if t.ptr and not t.is_ref:
+                    return "(&(%s)->%s)" % (self.expr(inner), member)
+                e = self.expr(inner)
+                m = re.match(r"^\(\*(\w+)\)$", e)
+                return ("%s->%s" % (m.group(1), member)) if m else "(%s).%s" % (e, member)
         raise ExtractionError("derived-to-base conversion not supported: %s -> %s" % (inner.get("type"), n.get("type")))
 
     def explicit_cast(self, n):
